@@ -74,6 +74,19 @@ def statement_token_edits(run: Run, stmts: list[str], vocab: list[str]) -> list[
     return out
 
 
+OPERANDS = ["a", "a | b", "a < b", "not a", "a and b", "a or b", "a if c else b", "lambda: a", "a := b", "(a := b)", "yield a", "*a", "**a", "await a", "-a", "a ** b",
+            "a, b", "a for a in b", "[a]", "a.b", "a[0]", "a()", "1", "'s'", "..."]
+TEMPLATES = ["{**%s}\n", "{'k': 1, **%s}\n", "[*%s]\n", "f(*%s)\n", "f(**%s)\n", "x = *%s,\n", "a[*%s]\n", "a[%s:%s]\n", "@%s\ndef f(): pass\n", "for x in *%s, y: pass\n",
+             "del %s\n", "with %s as y: pass\n", "x: %s = 1\n", "y = -%s\n", "y = a ** %s\n", "async def g():\n    await %s\n", "def g():\n    x = yield %s\n",
+             "def g():\n    return *%s, 1\n", "raise %s\n", "assert %s\n", "y = lambda: %s\n", "[y for y in %s]\n", "{y: %s for y in z}\n", "y = x if %s else z\n",
+             "y = f'{%s}'\n", "y = f'{%s!r:>4}'\n", "for %s in y: pass\n", "%s = 1\n", "%s += 1\n", "y = (%s for q in r)\n", "print(%s, sep='')\n", "y = %s,\n",
+             "import %s\n", "class C(%s): pass\n", "def f(p=%s): pass\n", "def f(p: %s): pass\n", "match %s:\n    case 1: pass\n", "match v:\n    case %s: pass\n"]
+
+
+def operand_matrix() -> list[str]:
+    return [t.replace("%s", o) for t in TEMPLATES for o in OPERANDS]
+
+
 def indent_family(run: Run, n: int) -> list[str]:
     """programs whose lines take their indentation, independently, from a set of whitespace strings mixing spaces, tabs and
     form feeds: flat blocks (every line its own unit) and nested blocks (outer / inner / inner / dedent)"""
@@ -165,6 +178,9 @@ def check(run: Run) -> None:
             for w2 in ("", " ", "  ", "    ", "\t", "        "):
                 add(pre + w1 + "\\\n" + w2 + "x = 1\n", "exec", "contline")
                 add(pre + w1 + "\\\n" + w1 + "\\\n" + w2 + "x = 1\n", "exec", "contline")
+    # 6. which expression forms each restricted operand position admits (CPython decides)
+    for t in operand_matrix():
+        add(t, "exec", "operand-matrix")
     res = run_ops("c01", [{"src": c["src"], "mode": c["mode"]} for c in cases], limit=20.0)
     traces, invalid = [], 0
     for i, (c, r) in enumerate(zip(cases, res)):
